@@ -35,7 +35,7 @@ impl Prop for C09 {
         "C09"
     }
     fn rule_text(&self) -> String {
-        "case = defchords group or defchordsv2 table over 2-5 participating keys with overlapping chords, sub-chords, undefined supersets, (v2) both release behaviours and a disabled layer; every chord and every single key outputs its own marker. Populations: 'target' (one key set pressed in a sampled permutation with inter-press gaps below / at / above the timeout, released in a sampled permutation), 'random' (mixed with a non-chord key). Oracle: defined chord completed within the timeout => its marker exactly once and no participant's single marker; released no later than shortly after the last participant's release; every pressed key is accounted for by exactly one marker whose key set contains it (nothing swallowed, nothing doubled), in press order. non-trivial = a multi-key chord marker was output; distinct = config x schedule hash.".into()
+        "case = defchords group or defchordsv2 table over 2-5 participating keys with overlapping chords, sub-chords, undefined supersets, (v2) both release behaviours, per-chord timeouts (T and 4T in one table) and a disabled layer; every chord and every single key outputs its own marker. Populations: 'target' (one key set pressed in a sampled permutation with inter-press gaps below / at / above the timeout, released in a sampled permutation), 'random' (mixed with a non-chord key). Oracle: defined chord completed within the timeout => its marker exactly once and no participant's single marker; released no later than shortly after the last participant's release; every pressed key is accounted for by exactly one marker whose key set contains it (nothing swallowed, nothing doubled), in press order. non-trivial = a multi-key chord marker was output; distinct = config x schedule hash.".into()
     }
     fn runs(&self, tier: Tier) -> u64 {
         match tier {
@@ -75,10 +75,15 @@ impl Prop for C09 {
             // each chord separately is disabled on l1 or not (a disabled chord next to an enabled
             // superset / subset of it is the interesting case)
             let disabled: Vec<bool> = table.iter().map(|_| use_disabled && r.chance(600)).collect();
+            // chords of one table may have different timeouts: the one that applies at any moment
+            // is the shortest among the chords that can still be completed
+            let mixed = r.chance(400);
+            let timeouts: Vec<u64> = table.iter().map(|_| if mixed && r.chance(500) { 4 * t } else { t }).collect();
             for (i, (ks, m)) in table.iter().enumerate() {
                 let names: Vec<&str> = ks.iter().map(|k| PK[*k]).collect();
-                ents.push(format!("({}) {m} {t} {} ({})", names.join(" "), release_beh[i], if disabled[i] { "l1" } else { "" }));
+                ents.push(format!("({}) {m} {} {} ({})", names.join(" "), timeouts[i], release_beh[i], if disabled[i] { "l1" } else { "" }));
             }
+            case.set("timeouts", timeouts.iter().map(|x| x.to_string()).collect::<Vec<_>>().join(","));
             case.set("disabled", disabled.iter().map(|d| if *d { "1" } else { "0" }).collect::<Vec<_>>().join(","));
             cfg.push_str(&format!("(defchordsv2 {})\n", ents.join(" ")));
         } else {
@@ -125,13 +130,21 @@ impl Prop for C09 {
                 case.set("on_disabled", 1);
             }
             // gap profile
-            let profile = *r.pick(&["below", "below", "below", "boundary", "above"]);
+            let profile = *r.pick(&["below", "below", "below", "boundary", "above", "between"]);
             case.set("profile", profile);
             let mut total = 0u64;
             for (i, k) in set.iter().enumerate() {
                 if i > 0 {
                     let g = match profile {
                         "below" => r.range(0, ((t.saturating_sub(3)) / (set.len() as u64)).max(0)),
+                        "between" => {
+                            // the last key arrives after the short timeout but within the long one
+                            if i == set.len() - 1 {
+                                r.range(t + 3, 4 * t - 3).saturating_sub(total)
+                            } else {
+                                r.range(0, 2)
+                            }
+                        }
                         "boundary" => {
                             if i == set.len() - 1 {
                                 // total elapsed since first press lands on T-1, T or T+1
@@ -164,7 +177,7 @@ impl Prop for C09 {
             }
             // held past the timeout, or released early (the chord is then decided by the release)
             let early = r.chance(350);
-            let hold = if early { r.range(1, t.saturating_sub(total + 2).max(1).min(12)) } else { t + 30 + r.range(0, 20) };
+            let hold = if early { r.range(1, t.saturating_sub(total + 2).max(1).min(12)) } else { 4 * t + 30 + r.range(0, 20) };
             ops.push(Op::Gap(hold as u32));
             let mut rel = set.clone();
             r.shuffle(&mut rel);
@@ -189,7 +202,7 @@ impl Prop for C09 {
             let ho = HistOpts { keys: hk, max_events: 14, consistent: true, timeouts: vec![t], long_gap_permille: 0, ..Default::default() };
             ops = gen_history(&mut r, &ho);
         }
-        ops.push(Op::Gap((2 * t + 200) as u32));
+        ops.push(Op::Gap((8 * t + 200) as u32));
         case.ops = ops;
         case
     }
@@ -303,8 +316,34 @@ impl Prop for C09 {
             let on_disabled = case.param_flag("on_disabled");
             let defined = table.iter().find(|(ks, _)| *ks == set);
             // within the timeout: v1: < T, v2: <= T (conventions of the pinned tree); T-1..T+1 unjudged
-            let clearly_within = span + 2 <= t;
-            let clearly_outside = span >= t + 2;
+            // per-chord timeouts (defchordsv2): while keys accumulate, the timeout in force is the
+            // shortest one among the chords that contain everything pressed so far
+            let timeouts: Vec<u64> = {
+                let v: Vec<u64> = case.param("timeouts").unwrap_or("").split(',').filter_map(|x| x.parse().ok()).collect();
+                if v.len() == table.len() { v } else { table.iter().map(|_| t).collect() }
+            };
+            let mixed = timeouts.iter().any(|x| *x != t);
+            let tmax = timeouts.iter().copied().max().unwrap_or(t).max(t);
+            let mut clearly_within = span + 2 <= t;
+            if mixed {
+                let mut ok = true;
+                for i in 1..presses.len() {
+                    let prefix: Vec<usize> = presses[..i].iter().map(|p| p.1).collect();
+                    let alive_min = table.iter().enumerate().filter(|(_, (ks, _))| prefix.iter().all(|k| ks.contains(k))).map(|(ci, _)| timeouts[ci]).min();
+                    match alive_min {
+                        Some(m) => ok &= presses[i].0 - first_t + 2 <= m,
+                        None => ok = false,
+                    }
+                }
+                // a chord that still has a strict superset in the table waits for it; with mixed
+                // timeouts only chords without a superset are judged
+                let has_superset = table.iter().any(|(ks, _)| ks.len() > set.len() && set.iter().all(|k| ks.contains(k)));
+                clearly_within = ok && !has_superset;
+                if clearly_within && span + 2 > t {
+                    o.count("probe.chord-completed-after-a-sibling's-shorter-timeout", 1);
+                }
+            }
+            let clearly_outside = span >= tmax + 2;
             if span + 1 >= t && span <= t + 1 {
                 o.count("boundary.span-at-timeout", 1);
             }
